@@ -30,6 +30,7 @@ CFG = dict(
                  "4": "the per-destination buffer measured on the running code is smaller than the 12 outstanding envelopes the property presupposes",
                  "5": "dial: newConnection was called for a name that had a live record (or twice), or an accepted envelope for a name without record did not make the proxy dial",
                  "6": "end-to-end: an RPC through the real Proxy ended differently from the same RPC on a direct connection",
+                 "7": "attach race: after AddClient(X) had returned (racing with the routing of the first envelope addressed to X) an envelope accepted for X was not handed to X's attached connection, or X was dialled again",
                  "8": "re-check of the exploration reduction: the reduced exploration of the model (Check/C16c.v) and the full one reach different sets of quiescent states at some step",
                  "9": "re-check of the exploration reduction: the full exploration ran out of fuel (not compared)"},
     rule="lock-step in synctest bubbles on the real goat.Proxy with scripted peer transports (one group of actions, synctest.Wait, snapshot: "
@@ -44,7 +45,11 @@ CFG = dict(
          "source - 1..4 real Servers (pre-attached / dialled on demand, 3 rewrites), unary + bidi + client-stream + server-stream RPCs with <= 12 "
          "envelopes outstanding per destination, compared with the direct-connection outcomes; free-running stress (3..10 peers, one goroutine "
          "per sender, paced and bursting) judged by the delivery predicates; a sample of lock-step scenarios (thorough: ~500) on which the "
-         "reduced and the full exploration of the model are compared outcome set by outcome set; each rig runs as 8 shard processes",
+         "reduced and the full exploration of the model are compared outcome set by outcome set; attach race: AddClient(X) at the moment the first envelope for X is being routed - placed deterministically from a zerolog hook "
+         "inside the forwarding loop (40 rounds x GOMAXPROCS 1/4/16; thorough 400) and, as a PROBABILISTIC search, by free-running goroutines "
+         "released by one barrier with seeded Gosched noise under GOMAXPROCS 1/4/16 for a fixed time (quick 3 s each: some 3000-6000 rounds "
+         "each; thorough 60 s each) - judged by the predicate alone; each rig runs as 8 shard processes; a scenario in which the proxy holds a "
+         "mutex across a blocking call is reported as wedged by a real-time watcher (exit 3) and the run resumes",
     assumptions=["payloads are opaque to the proxy (tokens; the rig compares whole envelopes modulo routing fields)",
                  "peer transports return queued envelopes in order; quiescence = testing/synctest's durable blocking; goroutine roles are read from runtime.Stack frames"],
 )
